@@ -112,3 +112,79 @@ func VerifC03_MessageKinds() {
 	}
 	zz.Reach("C03.kinds.end")
 }
+
+// VerifC03_ForeignMultisigKey: a victim's plain account is the declared signer; the signature carries a multisignature
+// key (flat or nested) made of the attacker's keys, validly signed by them: rejected, the victim pays nothing.
+func VerifC03_ForeignMultisigKey() {
+	a := vNewAnte()
+	_, victimPub := vKeyPair(0)
+	p1, k1 := vKeyPair(1)
+	p2, k2 := vKeyPair(2)
+	victim := sdk.Address(victimPub.Address())
+	a.fund(victim, sdk.NewInt(1<<40), victimPub)
+	postypes.PosFeeMap = map[string]int64{"send": 10}
+	msg := postypes.MsgSend{FromAddress: victim, ToAddress: sdk.Address(k1.Address()), Amount: sdk.NewInt(777)}
+	fee := vFee(sdk.NewInt(1000))
+	sb, err := types.StdSignBytes(a.ctx.ChainID(), 5, fee, msg, "")
+	if err != nil {
+		panic(err)
+	}
+	s1, _ := p1.Sign(sb)
+	s2, _ := p2.Sign(sb)
+	inner := crypto.PublicKeyMultiSignature{PublicKeys: []crypto.PublicKey{k1, k2}}
+	innerSig := crypto.MultiSignature{Sigs: [][]byte{s1, s2}}
+	var key crypto.PublicKey = inner
+	sig := innerSig.Marshal()
+	if zz.Choice("nested", 2) == 1 {
+		key = crypto.PublicKeyMultiSignature{PublicKeys: []crypto.PublicKey{inner, k1}}
+		outer := crypto.MultiSignature{Sigs: [][]byte{innerSig.Marshal(), s1}}
+		sig = outer.Marshal()
+	}
+	tx := types.NewStdTx(msg, fee, types.StdSignature{PublicKey: key, Signature: sig}, "", 5)
+	zz.SetEnv("txindex.contains", false)
+	tmNode, closeNode := vNode()
+	defer closeNode()
+	pre := a.bal(victim)
+	_, _, abort := NewAnteHandler(a.ak)(a.ctx, tx, []byte("tx-bytes-3"), tmNode, false)
+	zz.Assert("C03.foreign-multisig.rejected", abort)
+	zz.Assert("C03.foreign-multisig.victim-pays-nothing", a.bal(victim).Equal(pre))
+	zz.Reach("C03.foreign-multisig.end")
+}
+
+// VerifC03_FeeFollowsParameterChangeWithinBlock: one ante handler value serves every transaction of the node; when
+// governance raises the fee multiplier between two transactions of the same block, the second one must pay the new
+// required fee.
+func VerifC03_FeeFollowsParameterChangeWithinBlock() {
+	a := vNewAnte()
+	priv, pub := vKeyPair(0)
+	signer := sdk.Address(pub.Address())
+	a.fund(signer, sdk.NewInt(1<<40), pub)
+	postypes.PosFeeMap = map[string]int64{"send": 10}
+	h := NewAnteHandler(a.ak)
+	mk := func(entropy int64, fee int64) types.StdTx {
+		msg := postypes.MsgSend{FromAddress: signer, ToAddress: sdk.Address(make([]byte, 20)), Amount: sdk.NewInt(1)}
+		fc := vFee(sdk.NewInt(fee))
+		sb, err := types.StdSignBytes(a.ctx.ChainID(), entropy, fc, msg, "")
+		if err != nil {
+			panic(err)
+		}
+		s, _ := priv.Sign(sb)
+		return types.NewStdTx(msg, fc, types.StdSignature{PublicKey: pub, Signature: s}, "", entropy)
+	}
+	zz.SetEnv("txindex.contains", false)
+	tmNode, closeNode := vNode()
+	defer closeNode()
+	_, _, abort1 := h(a.ctx, mk(1, 10), []byte("t1"), tmNode, false)
+	zz.Assert("C03.param-change.first-tx-accepted", !abort1)
+	// governance raises the default multiplier (same block height)
+	newMult := zz.Int64("new_multiplier", 2, 50)
+	p := a.ak.GetParams(a.ctx)
+	p.FeeMultiplier = types.FeeMultipliers{Default: newMult}
+	a.ak.SetParams(a.ctx, p)
+	fee2 := zz.Int64("fee2", 0, 1000)
+	_, _, abort2 := h(a.ctx, mk(2, fee2), []byte("t2"), tmNode, false)
+	if !abort2 {
+		zz.Assert("C03.param-change.second-tx-pays-the-new-fee", fee2 >= 10*newMult)
+	}
+	zz.Reach("C03.param-change.end")
+}
